@@ -1025,6 +1025,30 @@ def charstring_and_svg_serialisers(tier, rnd):
             len(s) == len(t) and all(close(float(v), float(w), 1e-9) for p, q in zip(s, t) for v, w in zip(p, q)) for a, b in zip(got, want) for s, t in zip(a[2], b[2]))
         if not same:
             r.fail("SVGPathPen -> parse_path changed the geometry: in %s svg %r" % (show(ops), sp.getCommands()[:300]))
+    # ---- SVG on a coarse grid: coordinates coincide often, so the H/V/duplicate-point shortcuts of
+    # SVGPathPen._lineTo (decided from the pen's remembered current point) are exercised after
+    # every kind of segment, including lines that share x or y with a CONTROL point of the curve before
+    grid = (0, 10, 20, 30)
+    for i in range(400 if tier == "quick" else 6000):
+        ops = [("moveTo", ((rnd.choice(grid), rnd.choice(grid)),))]
+        for _ in range(rnd.randint(1, 5)):
+            kind = rnd.choice(("lineTo", "lineTo", "curveTo", "qCurveTo"))
+            n = {"lineTo": 1, "curveTo": 3, "qCurveTo": 2}[kind]
+            ops.append((kind, tuple((rnd.choice(grid), rnd.choice(grid)) for _ in range(n))))
+        ops.append((rnd.choice(("closePath", "endPath")), ()))
+        r.case(("svg-grid", tuple(o for o, _ in ops)))
+        want = normal(canon(ops), rotate=False, keep_points=False)
+        try:
+            sp = SVGPathPen(None)
+            replay(ops, sp)
+            rec = RecordingPen()
+            parse_path(sp.getCommands(), rec)
+            got = normal(canon(rec.value), rotate=False, keep_points=False)
+        except Exception as e:
+            r.fail("SVGPathPen/parse_path raised %s: %s on %s" % (type(e).__name__, e, show(ops)))
+            continue
+        if got != want:
+            r.fail("SVGPathPen -> parse_path changed the geometry (grid): in %s svg %r" % (show(ops), sp.getCommands()[:300]))
     r.sample({"svg": "M0 0Q1 1 2 0Z"})
     return r
 
